@@ -52,7 +52,7 @@ def gen_case(rng, i):
     if rng.random() < 0.3 and tree:
         # non-ASCII / non-latin-1 text in a value
         j = rng.randrange(len(tree))
-        if tree[j][0] == "L":
+        if tree[j][0] == "L" and tree[j][1] not in ("34", "43"):
             tree = list(tree)
             tree[j] = ("L", tree[j][1], tree[j][2] + rng.choice(NONASCII))
     if rng.random() < 0.05:
